@@ -1029,7 +1029,7 @@ func genC14(tier string, seed uint64, n int, e *Emitter) {
 		}
 	}
 	if n == 0 {
-		n = 520
+		n = 440
 		if tier == "thorough" {
 			n = 6000
 		}
